@@ -1,7 +1,12 @@
 package main
 
 import (
+	"bytes"
 	"fmt"
+	"os"
+	"os/exec"
+	"path/filepath"
+	"strconv"
 	"strings"
 
 	g "github.com/bobertlo/gmars"
@@ -33,6 +38,15 @@ func runC16(c *Ctx) {
 		cfg := asm.Config{Dialect: d, CoreSize: m, Length: maxLen, Processes: 8}
 		mode := []g.SimulatorMode{g.ICWS94, g.NOP94}[r.Intn(2)]
 		gc := gcfg(cfg, mode)
+		if r.Chance(1, 3) {
+			// read/write limits, process and cycle limits have nothing to do with the listing
+			gc.ReadLimit, gc.WriteLimit = g.Address(r.Range(1, m)), g.Address(r.Range(1, m))
+			gc.Processes, gc.Cycles = g.Address(r.Range(1, 9000)), g.Address(r.Range(1, 100000))
+		}
+		if idx%40 == 39 && os.Getenv("GMARS_BIN") != "" {
+			cliListing(c, idx, r)
+			return
+		}
 		code, start := genWarrior(r, idx, d, m, maxLen)
 		if idx < 6 {
 			code, start = nil, 0 // the empty program (it assembles, and its listing must denote it)
@@ -158,3 +172,80 @@ func runC16(c *Ctx) {
 }
 
 var _ = mars.DAT
+
+// cliListing checks the text behind the -A option itself: the freshly built cmd/gmars is run with -A
+// on a by-construction program under presets and flag vectors, and its output is read back with the
+// listing conventions of the rule set and core size THOSE OPTIONS describe.
+func cliListing(c *Ctx, idx int64, r *Rng) {
+	bin, work := os.Getenv("GMARS_BIN"), os.Getenv("VERIF_WORK")
+	var args []string
+	var cfg asm.Config
+	flagset := ""
+	if r.Chance(1, 2) {
+		names := []string{"nop94", "88", "icws", "noptiny", "nop256", "nopnano"}
+		name := names[r.Intn(len(names))]
+		row := readmePresets[name]
+		args = []string{"-preset", name}
+		cfg = asm.Config{Dialect: row.dialect, CoreSize: row.size, Length: row.length, Processes: row.processes, Distance: row.distance}
+		flagset = "preset:" + name
+	} else {
+		cfg = asm.Config{Dialect: asm.D94, CoreSize: 8000, Length: 100, Processes: 8000, Distance: 100}
+		if r.Chance(1, 2) {
+			args = append(args, "-8")
+			cfg.Dialect = asm.D88
+			flagset += "-8"
+		}
+		if r.Chance(1, 2) {
+			cfg.CoreSize = []int{80, 257, 800, 8191, 8192, 55440}[r.Intn(6)]
+			if cfg.Length > cfg.CoreSize/3 {
+				cfg.Length = cfg.CoreSize / 4
+				args = append(args, "-l", strconv.Itoa(cfg.Length))
+			}
+			cfg.Distance = cfg.Length
+			args = append(args, "-s", strconv.Itoa(cfg.CoreSize))
+			flagset += "-s"
+		}
+	}
+	var p *asm.Prog
+	var mn *asm.Meaning
+	for t := 0; t < 30 && mn == nil; t++ {
+		p = asm.GenProg(r, asm.GenOpts{Cfg: cfg, MaxLines: 1 + r.Intn(min(cfg.Length, 8)), UseLabels: true, UseEqus: r.Bool(), UseConsts: r.Bool()})
+		if m2, err := p.Meaning(); err == nil && len(m2.Code) > 0 {
+			mn = m2
+		}
+	}
+	if mn == nil {
+		return
+	}
+	text := asm.Render(p, randStyle(r, progNames(p)))
+	f := filepath.Join(work, fmt.Sprintf("c16-%d-%d.red", os.Getpid(), idx))
+	os.WriteFile(f, []byte(text), 0o644)
+	defer os.Remove(f)
+	args = append(args, "-A", f)
+	cmd := exec.Command(bin, args...)
+	var so, se bytes.Buffer
+	cmd.Stdout, cmd.Stderr = &so, &se
+	err := cmd.Run()
+	cs := map[string]interface{}{"args": args, "source": text, "stdout": so.String(), "stderr": se.String(), "want": coreStr(mn.Code), "want_start": mn.Start}
+	c.Inc("cli_listings")
+	if err != nil || se.Len() > 0 {
+		c.Violate("C16:cli-A-failed", fmt.Sprintf("gmars -A failed (%v, stderr %q) on a well-formed warrior", err, se.String()), cs)
+		return
+	}
+	code, start, rerr := asm.ReadListing(so.String(), cfg.Dialect, cfg.CoreSize)
+	if rerr != nil {
+		c.Violate("C16:cli-A-unreadable", fmt.Sprintf("the -A listing does not follow the pMARS listing conventions of the rule set the options select (%s): %v", flagset, rerr), cs)
+		return
+	}
+	if len(code) != len(mn.Code) || start != mn.Start {
+		c.Violate("C16:cli-A-shape", fmt.Sprintf("the -A listing denotes %d instructions with entry %d, the warrior has %d with entry %d", len(code), start, len(mn.Code), mn.Start), cs)
+		return
+	}
+	for i := range code {
+		if code[i] != mn.Code[i] {
+			c.Violate("C16:cli-A-field", fmt.Sprintf("options %s: line %d of the -A listing denotes %s, the warrior has %s", flagset, i, insnStr(code[i]), insnStr(mn.Code[i])), cs)
+			return
+		}
+	}
+	c.Nontrivial("cli|" + flagset)
+}
